@@ -935,6 +935,13 @@ def lt(a, b):
             return not_(('op', 'LT', B, const(k1 - k2 + 1)))
         if A == B:
             return const(k1 < k2)
+        # named numeric constants (the curve order, the field prime) behave like literals: they stay on the right
+        a_named = tag(A) == 'sym' and A[1].isupper()
+        b_named = tag(B) == 'sym' and B[1].isupper()
+        if b_named and not a_named:
+            return ('op', 'LT', A, _add_nary([B, const(k2 - k1)]))
+        if a_named and not b_named:
+            return not_(('op', 'LT', B, _add_nary([A, const(k1 + 1 - k2)])))
         if repr(A) <= repr(B):
             return ('op', 'LT', A, _add_nary([B, const(k2 - k1)]))
         return not_(('op', 'LT', B, _add_nary([A, const(k1 + 1 - k2)])))
